@@ -4,7 +4,9 @@
 // real HttpContext, and zlib's adler32 as ProtobufCodecLite::checksum calls it -- fed from a
 // real muduo::net::Buffer in the segmentation given by the case.  Same case and output format
 // as extract/C18_driver.ml:
-//   case <id> <kind> <tag-spec>        kind = raw | pb | rpc | http | adler
+//   case <id> <kind> <tag-spec>        kind = raw | pb | rpc | old | http | adler | conn | hsrv
+//                                      old = the OLD codec examples/protobuf/codec/codec.cc (class ProtobufCodec,
+//                                      frames carry a type name; harness/C18_oldcodec.cc compiles it from the tree)
 //   F <chunk-spec>                     buf.append(chunk); then the decoder (unless abandoned)
 //   E <msg-spec>                       (raw) fillEmptyBuffer
 //   E <type> <id> <svc> <meth> <req> <resp> <err>   (pb, rpc) fillEmptyBuffer; "~" = absent
@@ -54,6 +56,7 @@
 #include "muduo/net/EventLoop.h"
 #include "muduo/net/InetAddress.h"
 #include "common.h"
+#include "C18_oldcodec.h"
 
 using namespace muduo;
 using namespace muduo::net;
@@ -129,6 +132,20 @@ static void onRpcMessage(const TcpConnectionPtr&, const RpcMessagePtr& m, Timest
 static void onError(const TcpConnectionPtr&, Buffer*, Timestamp, ProtobufCodecLite::ErrorCode e)
 {
   g_events.push_back("err:" + ProtobufCodecLite::errorCodeToString(e));
+  g_abandoned = true;
+}
+
+// the OLD codec's callbacks: the only message type linked into this driver is muduo.net.RpcMessage
+static void onOldMessage(const google::protobuf::Message& m)
+{
+  if (m.GetDescriptor() == RpcMessage::descriptor())
+    g_events.push_back("msg:" + hexOrDash(canon(static_cast<const RpcMessage&>(m))));
+  else
+    g_events.push_back("msg-of-type:" + m.GetTypeName());
+}
+static void onOldError(const string& name)
+{
+  g_events.push_back("err:" + name);
   g_abandoned = true;
 }
 
@@ -289,6 +306,7 @@ int main()
   std::unique_ptr<ProtobufCodecLite> lite;
   std::unique_ptr<RpcCodec> rpc;
   std::unique_ptr<HttpContext> http;
+  OldCodec* old = NULL;
   string line;
   while (std::getline(std::cin, line))
   {
@@ -305,6 +323,7 @@ int main()
       lite.reset();
       rpc.reset();
       http.reset();
+      if (old) { oldcodec_delete(old); old = NULL; }
       g_abandoned = false;
       g_events.clear();
       if (g_kind == "raw") lite.reset(new RawCodec(tag, onRawMessage, onError));
@@ -312,6 +331,7 @@ int main()
         lite.reset(new ProtobufCodecLite(&RpcMessage::default_instance(), tag, onPbMessage,
                                          ProtobufCodecLite::RawMessageCallback(), onError));
       else if (g_kind == "rpc") rpc.reset(new RpcCodec(onRpcMessage, ProtobufCodecLite::RawMessageCallback(), onError));
+      else if (g_kind == "old") old = oldcodec_new(onOldMessage, onOldError);
       else if (g_kind == "http") http.reset(new HttpContext);
       else if (g_kind == "conn")
       {
@@ -371,7 +391,8 @@ int main()
       g_events.clear();
       if (!g_abandoned)
       {
-        if (rpc) rpc->onMessage(TcpConnectionPtr(), buf.get(), Timestamp());
+        if (old) oldcodec_onMessage(old, buf.get());
+        else if (rpc) rpc->onMessage(TcpConnectionPtr(), buf.get(), Timestamp());
         else lite->onMessage(TcpConnectionPtr(), buf.get(), Timestamp());
       }
       printf("F %s r=%zu ab=%d\n", joinEvents().c_str(), buf->readableBytes(), g_abandoned ? 1 : 0);
@@ -441,6 +462,14 @@ int main()
         m.set_request(spec2(w[1]));
         lite->fillEmptyBuffer(&out, m);
       }
+      else if (old)
+      {
+        fillRpc(&m, w);
+        oldcodec_fillEmptyBuffer(&out, m);
+        printf("E %s\n", vh::hexOf(string(out.peek(), out.readableBytes())).c_str());
+        fflush(stdout);
+        continue;
+      }
       else
       {
         fillRpc(&m, w);
@@ -470,6 +499,7 @@ int main()
     else { fprintf(stderr, "bad op: %s\n", line.c_str()); return 2; }
     fflush(stdout);
   }
+  if (old) oldcodec_delete(old);
   rc.close();
   return 0;
 }
